@@ -8,7 +8,7 @@ from vlib.core import exc_site, fmt_exc
 PROPERTY = "C15"
 LEVEL = "exploration"
 CLAIM = {
-    "text": "Exploration by runtime monitoring of relations between evaluations: for all 9 scale x 2 location methods (+'norm'), axis in {None,0,1}, 1-D and 2-D shapes with >= 8 elements per lane (incl. one-lane (1,n)/(n,1) shapes) and data on an exact grid (integers, affine maps exact in float32) the monitor checks scale(a*x+b) == |a|*scale(x), z(a*x+b) == sign(a)*z(x) where scale(x) != 0, per-axis result == the library's own 1-D estimator applied lane by lane (or to the flattened data), result shapes broadcastable against the input, and finiteness for constants, >50% ties and heavy outliers; also through FilterbankBlock.normalise and TimeSeries.normalise. Inputs are float32 or float64 and are compared with a private copy after every estimator call. Rounds 7-8 added: a smooth (positively correlated differences) data class, and lanes of 1025-2600 samples for every estimator (repeatability, equivariance under 2x+64, axis result vs lane result). Round 9 added: difference/order-statistic estimators on a pedestal of 2^22, incl. a lane whose spread is a few units.",
+    "text": "Exploration by runtime monitoring of relations between evaluations: for all 9 scale x 2 location methods (+'norm'), axis in {None,0,1}, 1-D and 2-D shapes with >= 8 elements per lane (incl. one-lane (1,n)/(n,1) shapes) and data on an exact grid (integers, affine maps exact in float32) the monitor checks scale(a*x+b) == |a|*scale(x), z(a*x+b) == sign(a)*z(x) where scale(x) != 0, per-axis result == the library's own 1-D estimator applied lane by lane (or to the flattened data), result shapes broadcastable against the input, and finiteness for constants, >50% ties and heavy outliers; also through FilterbankBlock.normalise and TimeSeries.normalise. Inputs are float32 or float64 and are compared with a private copy after every estimator call. Rounds 7-8 added: a smooth (positively correlated differences) data class, and lanes of 1025-2600 samples for every estimator (repeatability, equivariance under 2x+64, axis result vs lane result). Round 9 added: difference/order-statistic estimators on a pedestal of 2^22, incl. a lane whose spread is a few units. Round 10 added: 7-13 lanes of 640-1000 samples with lane-specific spreads for every estimator, both axes and memory orders.",
     "design_ref": "DESIGN.md section 3 (C15)",
     "note": "Trusted: exact affine maps on the integer grid (a in {+-1/64,+-1/4,+-1/2,+-2,+-3,+-10,+-64,+-100}, integer b). For doublemad the comparison is element-wise and excludes elements equal to the median (their side is undefined under a<0).",
     "technique": "runtime monitoring: metamorphic relations (affine equivariance, lane consistency) between executions of the real estimators",
